@@ -59,6 +59,12 @@ pub fn run(cases: &[Vec<String>]) {
                 let seed: u64 = u.get(5).and_then(|s| s.parse().ok()).unwrap_or(1);
                 run_async_case(seed, move || crate::ua::run_case(u))
             }
+            "stun" => {
+                // id c16 stun <reliable> <response ms|-> <wrong-id ms|-> <mode>  -> the C20 client harness
+                let mut u = vec![c[0].clone(), "c20".into(), "cli".into()];
+                u.extend(c[3..].iter().cloned());
+                run_async_case(1, move || crate::c20::run_cli(u))
+            }
             other => Ok(format!("bad kind {}", other)),
         };
         let panics = take_panics();
